@@ -1,6 +1,6 @@
 (** Property C17 — the theorems the check counts as obligations.  Nothing but
     statements closed by [exact] and [Print Assumptions]. *)
-From HS Require Import Base.Prelude C17.Model C17.PBProofs C17.PBConv C17.Chain C17.ChainProofs C17.ChainConv C17.ML C17.MLProofs C17.PBFifo C17.RS.
+From HS Require Import Base.Prelude C17.Model C17.PBProofs C17.PBConv C17.Chain C17.ChainProofs C17.ChainConv C17.ML C17.MLProofs C17.PBFifo C17.RS C17.ChainFifo.
 From Coq Require Import Permutation.
 Local Open Scope Z_scope.
 
@@ -105,3 +105,13 @@ Theorem c17_rs_acked_everywhere : forall c sched s,
   forall w k v, In (w, k, v) (r_acked s) -> forall i, (i < rc_n c)%nat -> In (k, v) (r_log s i).
 Proof. exact rs_acked_everywhere. Qed.
 Print Assumptions c17_rs_acked_everywhere.
+
+(** Chain convergence, PARTIAL (what does hold of the clause refuted by
+    c17_chain_convergence_refuted): under per-link FIFO delivery and per-store FIFO
+    completion every node's log and store equal the head's at quiescence. *)
+Theorem c17_chain_convergence_fifo_partial : forall c, (2 <= cc_n c)%nat -> forall sched s,
+  crun_fifo c cinit sched = Some s -> cquiescent s ->
+  forall i, 0 <= i < cn c ->
+    n_log (k_node s i) = n_log (k_node s 0) /\ n_store (k_node s i) = n_store (k_node s 0).
+Proof. exact chain_convergence_fifo. Qed.
+Print Assumptions c17_chain_convergence_fifo_partial.
